@@ -6,7 +6,7 @@ QUERIES = [
     what='enqueued <=> level >= logger level (real macros + real LoggerBase::should_log_statement); argument expression evaluated <=> enqueued; static/dynamic level carried correctly'),
 ] + [
   Q('sink_filters_%d_%d' % (nf1, f2), H, 'h_sink_filters', defines=['NF1=%d' % nf1, 'F2=%d' % f2], unwind=6, models=['m_throw.c'], libmodels=['m_string.c'],
-    tier='quick' if (nf1, f2) in ((2, 0), (1, 0), (0, 1)) else ('unregistered' if nf1 == 3 else 'thorough'),   # NF1=3 (second filter after the first was cached) runs out of memory: kept, not run timeout=280 if nf1 >= 2 else None,
+    tier=('quick' if (nf1, f2) in ((2, 0), (1, 0), (0, 1), (3, 0)) else 'thorough'), timeout=280, cdefs=['VLL_NEW_HOOK', 'VLL_STR_NOGROW'], byteloops=True, forbid=[r'17_M_realloc_insert'], unwindset=['strlen.0:8', 'memcmp.0:8', 'vll_memcpy.0:10', 'vll_memmove.0:34', 'vll_memmove.1:34'],
     bounds='two sinks with symbolic thresholds; sink 1 has %d filter(s), sink 2 has %d, verdicts symbolic; statement levels symbolic; the last filter of sink 1 is added between two decisions' % (nf1, f2),
     what='real Sink::apply_all_filters/add_filter: written <=> level >= threshold AND all filters accept, independently per sink; local filter copy refreshed after add_filter')
   for nf1 in (0, 1, 2, 3) for f2 in (0, 1)] + [
